@@ -18,10 +18,10 @@ import (
 	"verif/simnet"
 )
 
-var caps = []string{"", "timestamps", "duplicate-synack", "slow-synack", "isn-near-wrap", "no-sack-permitted", "plain-acks", "empty-sack-option", "half-sack-block", "closed", "no-handshake", "syn-dropped"}
+var caps = []string{"", "timestamps", "duplicate-synack", "slow-synack", "isn-near-wrap", "no-sack-permitted", "plain-acks", "plain-acks-with-timestamps", "empty-sack-option", "half-sack-block", "closed", "no-handshake", "syn-dropped"}
 
 func unavailable(c string) bool {
-	return c == "no-sack-permitted" || c == "plain-acks" || c == "empty-sack-option" || c == "half-sack-block" || c == "closed" || c == "syn-dropped"
+	return c == "no-sack-permitted" || c == "plain-acks" || c == "plain-acks-with-timestamps" || c == "empty-sack-option" || c == "half-sack-block" || c == "closed" || c == "syn-dropped"
 }
 
 func req(method, cap string, e2e int) proto.RTScn {
